@@ -2,13 +2,14 @@
 # usage: tools/seedrun.sh [seed ids...]   (default: all)  -- applies each kept seeded change to /repo, runs the
 # property's quick check, restores /repo, records the outcome in seeded/<id>/result.txt
 cd /verif
+R=${SEED_REPO:-/repo}
 ids="$@"; [ -z "$ids" ] && ids=$(ls seeded)
 for sid in $ids; do
   P=${sid%%-*}
-  git -C /repo diff --quiet || { echo "/repo is not clean"; exit 3; }
-  git -C /repo apply /verif/seeded/$sid/patch.diff || { echo "$sid: does not apply"; continue; }
-  out=$(env VERIF_SCRATCH_EVIDENCE=1 timeout 900 ./check $P quick 2>&1); rc=$?
-  git -C /repo checkout -- .
+  git -C $R diff --quiet || { echo "/repo is not clean"; exit 3; }
+  git -C $R apply /verif/seeded/$sid/patch.diff || { echo "$sid: does not apply"; continue; }
+  out=$(env VERIF_SCRATCH_EVIDENCE=1 VERIF_REPO=$R timeout 900 ./check $P quick 2>&1); rc=$?
+  git -C $R checkout -- .
   lab=$(echo "$out" | grep -o "entry=[A-Za-z0-9]* label=[a-zA-Z0-9_-]*" | head -2 | tr '\n' ';')
   echo "$P:quick:rc=$rc:$lab" > seeded/$sid/result.txt
   echo "$sid rc=$rc $lab"
